@@ -54,6 +54,11 @@ def cases(tier, rng):
             if thorough or c == "tcp":
                 line = "c17 %s 100000 %s other-open" % (c, side)
                 cs.append({"line": line, "key": line, "model": False, "tags": {"carrier": c, "n": 100000, "side": side, "variant": "other-open"}})
+    # end-of-stream must mean that the peer closed: a connection in the middle of a transfer must not be ended because ANOTHER
+    # application asked for a channel the server does not offer, or because another connection's service failed late
+    for sc in ("other-refused", "other-fails-late"):
+        line = "c02 tcp 3 %s" % sc
+        cs.append({"line": line, "key": line, "model": False, "tags": {"carrier": "tcp", "n": 0, "side": "neither", "variant": "premature:" + sc}})
     # the client's standard-stream listener: either end closes after a transfer both ways
     for c in (["tcp", "ws", "kcp"] if thorough else ["tcp"]):
         for side in ("app", "target"):
@@ -363,6 +368,10 @@ def oracle(case, impl):
     p = impl.split()
     if not p or p[0] in ("panic", "died", "timeout", "harness-error", "setup", "connect"):
         return [("crash;carrier=" + t["carrier"], "scenario failed to run: " + impl[:150])]
+    if (t.get("variant") or "").startswith("premature:"):
+        if "first-half" in p or "second-half" in p:
+            return [("premature-eof;" + t["variant"][10:], "a logical connection was ended although neither of its ends closed (%s): %s" % (t["variant"][10:], impl[:120]))]
+        return []
     if t.get("variant") == "io":
         out = []
         if p[:3] != ["up", str(t["n"]), "-1"] or p[3:6] != ["down", str(t["n"]), "-1"]:
